@@ -64,6 +64,9 @@ class EcuSharedDataRaw(DiagLayerRaw):
             if not isinstance(dv_proxy, OdxLinkRef):
                 result.update(dv_proxy._build_odxlinks())
 
+        for vg in self.variable_groups:
+            result[vg.odx_id] = vg
+
         return result
 
     def _resolve_odxlinks(self, odxlinks: OdxLinkDatabase) -> None:
